@@ -431,7 +431,8 @@ where
 
         if res_base2k == s_base2k {
             let res_big: VecZnxBig<&mut [u8], BE>;
-            let (res_dft, scratch_1) = scratch.take_vec_znx_dft(self, (s.rank() + 1).into(), s.size()); // Todo optimise
+            let (mut res_dft, scratch_1) = scratch.take_vec_znx_dft(self, (s.rank() + 1).into(), s.size()); // Todo optimise
+            res_dft.zero(); // TODO: REMOVE ONCE ABOVE TAKES CORRECT SIZE
             {
                 // Temporary value storing a - b
                 let tmp_c_infos: GLWELayout = GLWELayout {
@@ -478,7 +479,8 @@ where
             self.glwe_normalize(&mut tmp_b, res_b, scratch_2);
 
             let res_big: VecZnxBig<&mut [u8], BE>;
-            let (res_dft, scratch_3) = scratch_2.take_vec_znx_dft(self, (s.rank() + 1).into(), s.size()); // Todo optimise
+            let (mut res_dft, scratch_3) = scratch_2.take_vec_znx_dft(self, (s.rank() + 1).into(), s.size()); // Todo optimise
+            res_dft.zero(); // TODO: REMOVE ONCE ABOVE TAKES CORRECT SIZE
             {
                 // Temporary value storing a - b
                 let tmp_c_infos: GLWELayout = GLWELayout {
@@ -563,7 +565,8 @@ where
         let ggsw_base2k: usize = s.base2k().into();
 
         self.glwe_sub(res, t, &f);
-        let (res_dft, scratch_1) = scratch.take_vec_znx_dft(self, (res.rank() + 1).into(), s.size()); // Todo optimise
+        let (mut res_dft, scratch_1) = scratch.take_vec_znx_dft(self, (res.rank() + 1).into(), s.size()); // Todo optimise
+        res_dft.zero(); // TODO: REMOVE ONCE ABOVE TAKES CORRECT SIZE
         let mut res_big: VecZnxBig<&mut [u8], BE> = self.glwe_external_product_internal(res_dft, res, s, scratch_1);
         for j in 0..(res.rank() + 1).into() {
             self.vec_znx_big_add_small_assign(&mut res_big, j, f.data(), j);
@@ -594,7 +597,8 @@ where
             rank: res.rank(),
         });
         self.glwe_sub(&mut tmp, a, res);
-        let (res_dft, scratch_2) = scratch_1.take_vec_znx_dft(self, (res.rank() + 1).into(), s.size()); // Todo optimise
+        let (mut res_dft, scratch_2) = scratch_1.take_vec_znx_dft(self, (res.rank() + 1).into(), s.size()); // Todo optimise
+        res_dft.zero(); // TODO: REMOVE ONCE ABOVE TAKES CORRECT SIZE
         let mut res_big: VecZnxBig<&mut [u8], BE> = self.glwe_external_product_internal(res_dft, &tmp, s, scratch_2);
         for j in 0..(res.rank() + 1).into() {
             self.vec_znx_big_add_small_assign(&mut res_big, j, res.data(), j);
@@ -616,7 +620,8 @@ where
         let res_base2k: usize = res.base2k().into();
         let ggsw_base2k: usize = s.base2k().into();
         self.glwe_sub_assign(res, &a);
-        let (res_dft, scratch_1) = scratch.take_vec_znx_dft(self, (res.rank() + 1).into(), s.size()); // Todo optimise
+        let (mut res_dft, scratch_1) = scratch.take_vec_znx_dft(self, (res.rank() + 1).into(), s.size()); // Todo optimise
+        res_dft.zero(); // TODO: REMOVE ONCE ABOVE TAKES CORRECT SIZE
         let mut res_big: VecZnxBig<&mut [u8], BE> = self.glwe_external_product_internal(res_dft, res, s, scratch_1);
         for j in 0..(res.rank() + 1).into() {
             self.vec_znx_big_add_small_assign(&mut res_big, j, a.data(), j);
